@@ -25,9 +25,24 @@ def main():
             t = time.time()
             r = subprocess.run(["/verif/bin/check", pid], cwd="/verif", env=env, stdout=subprocess.PIPE,
                                stderr=subprocess.DEVNULL, universal_newlines=True)
-            v = [l for l in r.stdout.split("\n") if l.startswith("VIOLATION")]
-            res[pid] = dict(exit=r.returncode, violations=len(v), first=v[0] if v else None, wall=round(time.time() - t, 1))
-            print(pid, "ALARM" if v else "quiet", v[0] if v else "", flush=True)
+            v_all = [l for l in r.stdout.split("\n") if l.startswith("VIOLATION")]
+            # a violation that only says "the Coq development / the check itself did not run" (a concurrent rebuild, a
+            # harness crash) is not evidence that the seeded change was noticed
+            v, broken = [], 0
+            for l in v_all:
+                kind = ""
+                try:
+                    rp = l.split("replay=", 1)[1].split()[0]
+                    kind = json.load(open(rp)).get("kind", "")
+                except Exception:
+                    pass
+                if kind in ("proof-broken", "check-crashed"):
+                    broken += 1
+                else:
+                    v.append(l)
+            res[pid] = dict(exit=r.returncode, violations=len(v), first=v[0] if v else None, wall=round(time.time() - t, 1),
+                            build_or_harness_trouble=broken)
+            print(pid, "ALARM" if v else ("TROUBLE(build/harness) - rerun" if broken else "quiet"), v[0] if v else "", flush=True)
     finally:
         sh("git", "-C", SCRATCH, "checkout", "--", ".")
     print(json.dumps(res))
